@@ -184,6 +184,8 @@ async def _main(case, obs, loop, net):
         pl.hw_lag = lg.get("hw_lag", 0)
         tps.append(TopicPartition(lg["topic"], lg["partition"]))
     obs.consumer_tps = [(t.topic, t.partition) for t in tps]
+    pl0 = c.log(tps[0].topic, tps[0].partition)
+    obs.initial = {"log_start": pl0.log_start, "hw": pl0.hw, "lso": pl0.lso, "end": pl0.next_offset}
     if case.get("shape_batches"):
         c.fetch_max_batches = Cyclic(case["shape_batches"])
     if case.get("shape_partial"):
